@@ -4,6 +4,7 @@ package main
 // evidence/<id>.json, print VIOLATION / KNOWN-FINDING lines, exit 0 or 1.
 
 import (
+	"os/exec"
 	"crypto/sha256"
 	"encoding/json"
 	"flag"
@@ -45,6 +46,12 @@ func hasProp(c *Contract, id string) bool {
 		}
 	}
 	return false
+}
+
+// specVectorPkgs: where the RFC example vectors relevant to a property live (thorough tier).
+var specVectorPkgs = map[string][]string{
+	"C01": {"."}, "C02": {"."}, "C03": {"."}, "C05": {"."}, "C09": {"."}, "C10": {"."},
+	"C04": {"./wsutil"}, "C07": {"./wsutil"}, "C12": {"./wsflate"},
 }
 
 func cmdCheck(args []string) {
@@ -210,6 +217,27 @@ func cmdCheck(args []string) {
 			nObl++
 		}
 	}
+	// thorough tier: the spec functions (and the trusted accept-key helper, and the DEFLATE
+	// interoperability assumption) are evaluated on the RFCs' own examples by tag-guarded tests
+	// in the repository. This validates specifications; it proves nothing about the code.
+	specVal := map[string]interface{}{"ran": false}
+	if pkgs := specVectorPkgs[*prop]; *tier == "thorough" && len(pkgs) > 0 {
+		argv := append([]string{"test", "-mod=mod", "-tags", "verif", "-count=1", "-vet=off", "-timeout", "120s", "-run", "TestSpecVectors", "-v"}, pkgs...)
+		cmd := exec.Command("go", argv...)
+		cmd.Dir = *repo
+		cmd.Env = append(os.Environ(), "GOFLAGS=-mod=mod", "GOPROXY=off", "GOSUMDB=off", "GOTOOLCHAIN=local")
+		out, err := cmd.CombinedOutput()
+		nPass := strings.Count(string(out), "--- PASS: TestSpecVectors")
+		nFail := strings.Count(string(out), "--- FAIL: TestSpecVectors")
+		specVal = map[string]interface{}{"ran": true, "cmd": "go " + strings.Join(argv, " "), "tests_passed": nPass, "tests_failed": nFail, "ok": err == nil && nPass > 0,
+			"what": "RFC 6455 5.7/5.x/7.4/1.3, RFC 3629 boundary code points, RFC 7692 7.2.3 examples evaluated on the specification functions; not a proof"}
+		if err != nil || nPass == 0 {
+			p := filepath.Join(replayDir, "spec-validation.txt")
+			os.WriteFile(p, append([]byte("obligation: spec-validation\nThe specification functions disagree with the RFC examples (or the vector tests did not run): the contracts cannot be trusted until this is resolved.\n\n"), out...), 0o644)
+			violations = append(violations, fmt.Sprintf("VIOLATION property=%s replay=%s obligation=spec-validation no-failing-input-found", *prop, p))
+			nObl++
+		}
+	}
 	if nObl == 0 && len(violations) == 0 {
 		p := filepath.Join(replayDir, "no-obligations.txt")
 		os.WriteFile(p, []byte("no obligations were generated for "+*prop+" (broken check)\n"), 0o644)
@@ -267,6 +295,7 @@ func cmdCheck(args []string) {
 		"samples":       samples,
 		"functions_under_contract": funcs,
 		"vacuity_guards": map[string]int{"cover_obligations": nCover, "satisfiable": nCoverOK},
+		"spec_validation": specVal,
 		"counterexample_replays": map[string]int{"attempted": nReplays, "reproduced_on_real_code": nReplayed},
 		"solver_wins":   solverWins,
 		"solver_seconds_total": solverTime,
